@@ -69,6 +69,7 @@ class World:
         self.cache_dir = os.path.join(root, 'cache')
         os.makedirs(self.cache_dir)     # created by the node install
         self.zk = zkmod.SimZk(clock, log)
+        self.zk.order_seed = config.get('child_order')
         self.admin = self.zk.connect('admin')
         self.presence_client = None
         self.seam = fsfault.FaultFS(clock, self.cache_dir, config['bufsize'])
@@ -1292,6 +1293,7 @@ def make_config(prop, tier, rng):
             if key not in ('place_new', 'deliver') else \
             rng.choice([0.7, 1.0, 1.5])
     cfg['wmul'] = wmul
+    cfg['child_order'] = rng.getrandbits(32) if rng.random() < 0.5 else None
     return cfg
 
 
